@@ -16,13 +16,14 @@ type TreeContext struct {
 }
 
 func NewTreeContext(cc TreeCacheClient, sc schemaClient.SchemaClientBound, actualOwner string) *TreeContext {
-	tc := &TreeContext{
+	// the owner given here is a placeholder (the callers pass the datastore name) until SetActualOwner is
+	// called for the first intent, it is not an acting intent
+	return &TreeContext{
 		cacheClient:  cc,
 		schemaClient: sc,
+		actualOwner:  actualOwner,
 		owners:       map[string]struct{}{},
 	}
-	tc.SetActualOwner(actualOwner)
-	return tc
 }
 
 // deepCopy root is required to be set manually
